@@ -192,6 +192,9 @@ pub fn digests_both(bytes: &[u8], ext_branch: u32, coins: &[Coin]) -> Result<(Di
     if tx.txid != want {
         note(format!("txid {} != reference {}", hex::encode(tx.txid), hex::encode(want)));
     }
+    if tx.chunked_txid != Ok(tx.txid) {
+        note(format!("txid {} from a slice, {:?} when the same bytes arrive in reads of at most 7 bytes", hex::encode(tx.txid), tx.chunked_txid.as_ref().map(hex::encode)));
+    }
     map.insert(Dg::Txid, tx.txid);
     if spec.ver.is_v5plus() {
         let got = tx.auth.clone()?;
@@ -523,6 +526,7 @@ pub fn run(args: &Args) -> i32 {
     run.assume("the reference implementation is trusted after reproducing every published ZIP 143 / 243 / 244 vector (checked at the start of each run)");
     run.assume("v6 digests have no external vectors: the reference follows the documented structure in txid.rs / sighash_v6.rs / the orchard crate's commitment docs");
     run.assume("SIGHASH_SINGLE with input index >= vout.len(): ZIP 244 S.2e defines outputs_sig_digest as the hash of the empty string (ZIP 143/243: 32 zero bytes); the digest is compared, the consensus rule that such signatures are invalid is out of scope");
+    run.assume("every transaction is additionally parsed through a reader that serves at most 7 bytes per call; its txid must equal the slice parse's (C03 owns the full reader-answer exploration)");
     run.assume("BLAKE2b/SHA-256 are treated as injective: 'must change' is checked on one replacement value per field position");
     run.assume("v1/v2 (pre-Overwinter) transactions have no signature hash in this code base (documented panic); only txid == sha256d(serialisation) is checked for them");
 
